@@ -218,9 +218,20 @@ Fixpoint nodupb {A} (eqb : A -> A -> bool) (l : list A) : bool :=
   end.
 
 (* sinks exist; route codes are None or at least one segment *)
-Definition wfb (i : input) : bool :=
+Definition wf_baseb (i : input) : bool :=
   forallb (fun s => Nat.ltb s (n_sinks i)) (all_sinks i)
   && forallb route_wf (status_routes (ops i)).
+Definition wf_base (i : input) : Prop := wf_baseb i = true.
+
+(* ... and every sink object is asked to receive startTestRun/stopTestRun AT MOST ONCE: as the fallback of a
+   router built with do_start_stop_run, or by one accepted add_rule(.., do_start_stop_run=True).  A sink
+   registered twice is outside the property's quantifier: "reach exactly the sinks registered for them, once per
+   run" is ambiguous there (once per sink or once per registration; the current code does the latter, a
+   de-duplicating one the former).  Inside wf the two readings coincide.  Everything else is allowed: a key may be
+   re-mapped, one sink may serve any number of rules and be the fallback as well (do_start_stop_run=True on at
+   most one of its registrations). *)
+Definition wfb (i : input) : bool :=
+  wf_baseb i && nodupb Nat.eqb (registered i (ops i)).
 Definition wf (i : input) : Prop := wfb i = true.
 
 (* the sinks of different rules (and the fallback) are distinct objects; one rule per key.  No theorem needs
@@ -231,7 +242,7 @@ Definition wf_distinct (i : input) : Prop := wf_distinctb i = true.
 
 (* sink s was asked to receive startTestRun/stopTestRun at most once (as the fallback of a router built with
    do_start_stop_run, or by ONE add_rule(.., do_start_stop_run=True)); it may serve any number of rules, be the
-   fallback as well, and its rules may be re-mapped *)
+   fallback as well, and its rules may be re-mapped.  wf says this of every sink (C18_wf_once). *)
 Definition reg_once (i : input) (s : sink) : Prop := count s (registered i (ops i)) <= 1.
 
 (* for C18_start_stop: the startTestRun/stopTestRun calls among the calls a sink received *)
